@@ -267,6 +267,9 @@ class Transmitter(AbstractTransmitter):
             if sampling_span is not None:
                 gamma = 1 - (1 / sampling_span)
                 p = gamma ** np.arange(len(start_dates))[::-1]
+                # On long folds the oldest weights underflow to exactly zero:
+                # every start where the episode fits must remain drawable.
+                p = np.maximum(p, np.finfo(float).tiny)
                 p /= p.sum()
             else:
                 p = None
